@@ -384,6 +384,13 @@ int sbdf_read_7bitpacked_int32(FILE* f, int* v)
 			return SBDF_ERROR_IO;
 		}
 
+		if (shl == 28 && (uch & 0x70))
+		{
+			/* the fifth group holds the last four bits of a 32-bit value: anything more
+			   would be shifted out of range */
+			return SBDF_ERROR_INVALID_SIZE;
+		}
+
 		result |= ((unsigned int)(uch & 0x7f)) << shl;
 		if ((uch & 0x80) == 0x80)
 		{
